@@ -26,10 +26,10 @@ type RefineOutput struct {
 
 // B.4 M
 type IntegratedPVMType struct {
-	ProgramCode ProgramCode    // p
-	Program     *Program       // deblob(p): decoded once, when the machine is created
-	Memory      Memory         // u
-	PC          ProgramCounter // i
+	ProgramCode ProgramCode // p
+	Program     *Program    // deblob(p): decoded once, when the machine is created
+	Memory      Memory      // u
+	PC          uint64      // i: a register-sized value (the code itself is addressed with 32 bits)
 }
 
 type (
